@@ -14,7 +14,9 @@ THEOREMS = ["LNN.C17_range",
             "LNN.C17_state_total",
             "LNN.C17_region_pos",
             "LNN.C17_state_C",
-            "LNN.C17_state_cases"]
+            "LNN.C17_state_cases",
+            "LNN.C17_fol_range",
+            "LNN.C17_fol_range_infer"]
 MODULES = ["LnnVerif.Props.C17"]
 FACETS = {"bounds", "contra", "state"}
 DOCUMENTED = {"UNKNOWN", "TRUE", "FALSE", "CONTRADICTION", "APPROX_FALSE", "APPROX_UNKNOWN", "EXACT_UNKNOWN", "APPROX_TRUE"}
